@@ -127,6 +127,26 @@ func GetEnv() Env {
 	return e
 }
 
+var hbFile *os.File
+
+// Heartbeat tells the driver's hang watchdog that the current case is still completing executions (a
+// case may enumerate thousands of executions internally). Call it between executions, never from inside
+// one: an execution that hangs must still trip the watchdog.
+func Heartbeat() {
+	if hbFile == nil {
+		out := os.Getenv("VCHECK_OUT")
+		if out == "" {
+			return
+		}
+		f, err := os.OpenFile(out+".hb", os.O_CREATE|os.O_WRONLY|os.O_TRUNC, 0o644)
+		if err != nil {
+			return
+		}
+		hbFile = f
+	}
+	_, _ = hbFile.Write([]byte{'.'})
+}
+
 // Thorough reports whether the thorough tier is selected.
 func (e Env) Thorough() bool { return e.Tier == "thorough" }
 
